@@ -16,6 +16,13 @@ def dyadic_setting(rng, tier):
         ts = rng.choice([2.0 ** 40, -2.0 ** 40, 2.0 ** 30])
         T = 2.0 ** rng.choice([0, 3, 6, 12])
         grid = rng.choice([4, 8, 16, 32, 64])
+        if rng.random() < 0.3:
+            # ... and sampled so finely that neighbouring grid points are 1, 2 or 4 ulps of the time stamps apart
+            # (2**40 <= |t| < 2**41 has spacing 2**-12): every time, difference and half-difference is still exact,
+            # but `t + tau` no longer is - arithmetic that is only right near the origin shows here
+            ts = rng.choice([2.0 ** 40, -2.0 ** 40 - 1.0])
+            grid = rng.choice([8, 16, 32, 64])
+            T = grid * 2.0 ** -12 * rng.choice([1, 2, 4])
     return ts, ts + T, grid
 
 
